@@ -984,7 +984,7 @@ func (s *search) dirChildren(ctx context.Context, br blob.Ref) (map[blob.Ref]str
 	ch := make(chan blob.Ref)
 	errch := make(chan error)
 	go func() {
-		errch <- s.h.index.GetDirMembers(ctx, br, ch, s.q.Limit)
+		errch <- s.h.index.GetDirMembers(ctx, br, ch, -1) // all children; s.q.Limit is about results
 	}()
 	children := make(map[blob.Ref]struct{})
 	for child := range ch {
